@@ -31,9 +31,11 @@ def scan_contract(interp, fi, args, kwargs):
     return B.PyList(None, seq=r)
 
 
-def block_rules(ck, T, axioms):
+def block_rules(ck, T, axioms, different_layout_finding=None):
     """the four block rules: check accepts the class pair, apply succeeds for containers of the same layout and preserves
-    the product (LA4) and the end structures"""
+    the product (LA4) and the end structures.  With `different_layout_finding` (C10) a second scenario drops the
+    same-layout assumption: the precondition of jax.tree.map (same treedef) is then the obligation that fails, isolated
+    under that listed finding."""
     P = ck.P
     BL = 'furax._base.blocks'
     # ------------------------------------------------------------------ the four block rules
@@ -54,16 +56,19 @@ def block_rules(ck, T, axioms):
         la, ra = lb.arr, rb.arr
         k = fresh_int('k')
         S.assume(z3.And(n >= 1, m >= 1))
-        # constructors' invariants (C10)
-        if kl == 'Row':
+        # constructors' invariants (C10); irrelevant to (and left out of) the different-layout scenario
+        if kl == 'Row' and same_layout:
             S.assume(z3.ForAll([k], z3.Implies(z3.And(k >= 0, k < n), A.outs(la[k]) == A.outs(la[0]))))
-        if kr == 'Col':
+        if kr == 'Col' and same_layout:
             S.assume(z3.ForAll([k], z3.Implies(z3.And(k >= 0, k < m), A.ins(ra[k]) == A.ins(ra[0]))))
         lblocks, rblocks = B.PyList(None, seq=lb), B.PyList(None, seq=rb)
         lblocks.treedef, rblocks.treedef = z3.Int('left_treedef'), z3.Int('right_treedef')
         left, right = S.new(lcls.name, blocks=lblocks), S.new(rcls.name, blocks=rblocks)
         # the pair stands in a well-typed chain: in-structure tree of left == out-structure tree of right
         S.assume(A.BLKS[kl + 'in'](la, n) == A.BLKS[kr + 'out'](ra, m))
+        if not same_layout:
+            S.assume(z3.Not(z3.And(n == m, lblocks.treedef == rblocks.treedef)))
+            S.pre_finding = different_layout_finding
         if same_layout:
             S.assume(z3.And(n == m, lblocks.treedef == rblocks.treedef))
             S.assume(A.lem_tree_struct_injective(A.BLKS[kl + 'in'], la, A.BLKS[kr + 'out'], ra, n, A.ins, A.outs))
@@ -72,6 +77,8 @@ def block_rules(ck, T, axioms):
         chk = S.call(S.I.getattr(rule, 'check'), [left, right])
         S.oblige('post', chk.normal, tag=f'{rc.name}:check-accepts-its-class-pair')
         out = S.call(S.I.getattr(rule, 'apply'), [left, right])
+        if not same_layout:
+            return      # the failing obligation is the `pre:tree.map-same-treedef` stated inside apply (jax raises there)
         if not out.normal:
             S.oblige('exc', out.raised('NoReduction'), tag=f'{rc.name}:only-NoReduction-may-escape:{out.value.name}',
                      note=str(out.where))
@@ -92,7 +99,46 @@ def block_rules(ck, T, axioms):
     ck.explore(f'{BL}.AbstractBlockDiagonalRule.apply', lambda S: block_rule(S, True), T, label='same-layout',
                axioms=axioms + A.block_struct_axioms() + A.matprod_axioms(),
                contracts={**A.block_structure_contracts(), **A.container_callee_contracts(P)})
+    if different_layout_finding:
+        ck.explore(f'{BL}.AbstractBlockDiagonalRule.apply', lambda S: block_rule(S, False), T, label='different-layout',
+                   axioms=[],
+                   contracts={**A.block_structure_contracts(), **A.container_callee_contracts(P)})
 
+
+def block_reduces(ck, T, axioms):
+    """reduce() of the three block operators: same map, same structures (flat containers of any arity)"""
+    BL = 'furax._base.blocks'
+    for cname, kind in (('BlockRowOperator', 'Row'), ('BlockDiagonalOperator', 'Diag'), ('BlockColumnOperator', 'Col')):
+        def block_reduce(S, cname=cname, kind=kind):
+            S.oracle = ORACLE
+            ops = S.seq('blocks', kind='list', sort=A.Op)
+            n0 = to_z3(ops.length)
+            a0 = ops.arr
+            k = fresh_int('k')
+            S.assume(n0 >= 1)
+            # class invariant established by the constructor (C10): shared structures agree
+            if kind == 'Row':
+                S.assume(z3.ForAll([k], z3.Implies(z3.And(k >= 0, k < n0), A.outs(a0[k]) == A.outs(a0[0]))))
+            if kind == 'Col':
+                S.assume(z3.ForAll([k], z3.Implies(z3.And(k >= 0, k < n0), A.ins(a0[k]) == A.ins(a0[0]))))
+            # LA4: a block diagonal of identities is the identity on the container structure
+            S.assume(z3.Implies(z3.ForAll([k], z3.Implies(z3.And(k >= 0, k < n0), z3.And(A.denw(a0[k]) == A.EMPTY,
+                                                                                      A.denc(a0[k]) == 1))),
+                                A.BLKW['Diag'](a0, n0) == A.EMPTY))
+            # the container's input and output structure trees coincide when every block is square (same leaves)
+            S.assume(z3.Implies(z3.ForAll([k], z3.Implies(z3.And(k >= 0, k < n0), A.ins(a0[k]) == A.outs(a0[k]))),
+                                A.BLKS['Diagin'](a0, n0) == A.BLKS['Diagout'](a0, n0)))
+            o = S.new(cname, blocks=B.PyList(None, seq=ops))
+            out = S.call(S.I.getattr(o, 'reduce'), [])
+            if not out.normal:
+                S.oblige('exc', False, tag=f'no-exception-{out.value.name}', note=str(out.where))
+                return
+            c, w, i_, o_ = A.den_of(S.I, out.value)
+            S.oblige('post', z3.And(w == A.BLKW[kind](a0, n0), c == 1), tag='same-map', exact=False)
+            S.oblige('post', z3.And(i_ == A.BLKS[kind + 'in'](a0, n0), o_ == A.BLKS[kind + 'out'](a0, n0)),
+                     tag='same-structures', exact=False)
+        ck.explore(f'{BL}.{cname}.reduce', block_reduce, T, axioms=axioms + A.block_struct_axioms(),
+                   contracts=A.block_structure_contracts())
 
 
 def build(ck):
@@ -158,38 +204,7 @@ def build(ck):
     ck.explore(f'{CORE}.AdditionOperator.reduce', addition_reduce, T, axioms=axioms)
 
     # ------------------------------------------------------------------ block operators' reduce
-    BL = 'furax._base.blocks'
-    for cname, kind in (('BlockRowOperator', 'Row'), ('BlockDiagonalOperator', 'Diag'), ('BlockColumnOperator', 'Col')):
-        def block_reduce(S, cname=cname, kind=kind):
-            S.oracle = ORACLE
-            ops = S.seq('blocks', kind='list', sort=A.Op)
-            n0 = to_z3(ops.length)
-            a0 = ops.arr
-            k = fresh_int('k')
-            S.assume(n0 >= 1)
-            # class invariant established by the constructor (C10): shared structures agree
-            if kind == 'Row':
-                S.assume(z3.ForAll([k], z3.Implies(z3.And(k >= 0, k < n0), A.outs(a0[k]) == A.outs(a0[0]))))
-            if kind == 'Col':
-                S.assume(z3.ForAll([k], z3.Implies(z3.And(k >= 0, k < n0), A.ins(a0[k]) == A.ins(a0[0]))))
-            # LA4: a block diagonal of identities is the identity on the container structure
-            S.assume(z3.Implies(z3.ForAll([k], z3.Implies(z3.And(k >= 0, k < n0), z3.And(A.denw(a0[k]) == A.EMPTY,
-                                                                                      A.denc(a0[k]) == 1))),
-                                A.BLKW['Diag'](a0, n0) == A.EMPTY))
-            # the container's input and output structure trees coincide when every block is square (same leaves)
-            S.assume(z3.Implies(z3.ForAll([k], z3.Implies(z3.And(k >= 0, k < n0), A.ins(a0[k]) == A.outs(a0[k]))),
-                                A.BLKS['Diagin'](a0, n0) == A.BLKS['Diagout'](a0, n0)))
-            o = S.new(cname, blocks=B.PyList(None, seq=ops))
-            out = S.call(S.I.getattr(o, 'reduce'), [])
-            if not out.normal:
-                S.oblige('exc', False, tag=f'no-exception-{out.value.name}', note=str(out.where))
-                return
-            c, w, i_, o_ = A.den_of(S.I, out.value)
-            S.oblige('post', z3.And(w == A.BLKW[kind](a0, n0), c == 1), tag='same-map', exact=False)
-            S.oblige('post', z3.And(i_ == A.BLKS[kind + 'in'](a0, n0), o_ == A.BLKS[kind + 'out'](a0, n0)),
-                     tag='same-structures', exact=False)
-        ck.explore(f'{BL}.{cname}.reduce', block_reduce, T, axioms=axioms + A.block_struct_axioms(),
-                   contracts=A.block_structure_contracts())
+    block_reduces(ck, T, axioms)
 
     # ------------------------------------------------------------------ InverseBinaryRule (check + apply)
     lazy_classes = [c for c in P.subclasses(P.cls('AbstractLazyInverseOperator'), concrete_only=True)]
